@@ -60,8 +60,15 @@ fn split(s: &str) -> Vec<u64> {
     s.split(',').filter(|x| !x.is_empty()).filter_map(|x| x.parse().ok()).collect()
 }
 
-fn spawn(check_id: &str, arm: &str) -> std::io::Result<Handle> {
-    let exe = std::env::current_exe()?;
+fn spawn(check_id: &str, arm: &str, exe_env: Option<&str>) -> std::io::Result<Handle> {
+    // `exe_env` names an environment variable holding the path of another build of the harness
+    // (e.g. the overflow-checking one); the worker then runs in that build
+    let exe = match exe_env.and_then(|v| std::env::var(v).ok()) {
+        Some(p) if std::path::Path::new(&p).exists() => std::path::PathBuf::from(p),
+        Some(p) => return Err(std::io::Error::new(std::io::ErrorKind::NotFound, format!("worker binary {p} does not exist (run through ./check)"))),
+        None if exe_env.is_some() => return Err(std::io::Error::new(std::io::ErrorKind::NotFound, format!("{} is not set (run through ./check)", exe_env.unwrap()))),
+        None => std::env::current_exe()?,
+    };
     // address-space limit in the child so that a runaway allocation fails there, not here
     let cmd = format!("ulimit -v {}; exec \"$0\" \"$@\"", 6 * 1024 * 1024);
     let mut child = Command::new("sh")
@@ -99,11 +106,18 @@ pub struct IsoArm {
     pub inner: Box<dyn Arm>,
     /// seconds one run may take before the child is declared hung
     pub timeout_s: u64,
+    /// run the worker in the build whose path is in this environment variable
+    pub exe_env: Option<&'static str>,
+    /// name reported for this arm (the worker is asked for `inner.name()`)
+    pub alias: Option<&'static str>,
 }
 
 impl Arm for IsoArm {
     fn name(&self) -> String {
-        self.inner.name()
+        match self.alias {
+            Some(a) => a.to_string(),
+            None => self.inner.name(),
+        }
     }
     fn runs(&self, tier: Tier, seed: u64) -> u64 {
         self.inner.runs(tier, seed)
@@ -124,6 +138,7 @@ impl Arm for IsoArm {
             return self.inner.run(info, ch, ctx);
         }
         let arm = self.name();
+        let inner_name = self.inner.name();
         let req = match ch.replay_values() {
             Some(v) => format!("P\t{}\t{}\t{}\t{}\n", info.run, info.tier.as_str(), info.seed, join(v)),
             None => format!("R\t{}\t{}\t{}\n", info.run, info.tier.as_str(), info.seed),
@@ -135,7 +150,7 @@ impl Arm for IsoArm {
         CHILDREN.with(|c| {
             let mut c = c.borrow_mut();
             if !c.contains_key(&arm) {
-                match spawn(self.check_id, &arm) {
+                match spawn(self.check_id, &inner_name, self.exe_env) {
                     Ok(h) => {
                         c.insert(arm.clone(), h);
                     },
